@@ -93,6 +93,10 @@ func main() {
 		}
 		var results []*FuncResult
 		for _, n := range fs.Args() {
+			if n == "lemmas" {
+				results = append(results, verifyLemmas(w, ss))
+				continue
+			}
 			fn, err := w.find(n)
 			if err != nil {
 				fmt.Fprintln(os.Stderr, err)
